@@ -27,6 +27,8 @@ FIXED = [
  ("F22", "C17", "bca42b9", "dirty slices evicted from the cache were lost when their write-back failed", "regress/C17/eviction-writeback-failure-loses-slice.json"),
  ("F23", "C15", "8e6a910", "serialize_to_buf wrote the 112-byte v3 layout for version 2 headers, so the header extensions of a v2 image were lost on re-serialisation", "regress/C15/v2-header-roundtrip-loses-extensions.json"),
  ("F24", "C09", "70248e1", "format_qcow2 panicked (index past the end of its single refcount block) for big virtual sizes with small clusters / wide refcounts", "regress/C09/format-panic-single-refblock.json"),
+ ("F25", "C13", "a4bfc76", "read_at/write_at computed offset+len-1 before validating: overflow panic for len 0 at offset 0 and for offsets near u64::MAX; a zero-length write allocated a cluster", "regress/C13/read-offset-overflow.json"),
+ ("F26", "C13", "17716e3", "discard on a read-only device returned Ok, unmapped clusters in ram and sent hole-punch requests to the file", "regress/C13/discard-on-read-only.json"),
  ("F11", "C03", "c069255", "writing to a zero-flagged cluster with a preallocation leaked the preallocated host cluster", "regress/C03/zero-prealloc-write-leaks.json"),
 ]
 KNOWN = [
